@@ -2,10 +2,10 @@
 from common import *
 
 THEOREM_OF = {
-    "un-inverse": "C12_inverse_cache_refuted",
-    "anti-inverse": "C12_inverse_cache_refuted",
-    "under-inverse": "C12_inverse_cache_refuted",
-    "zip-fast-fn": "C12_zip_cache_refuted_span",
+    "un-inverse": "C12_inverse_cache_names_refuted",
+    "anti-inverse": "C12_inverse_cache_names_refuted",
+    "under-inverse": "C12_inverse_cache_names_refuted",
+    "zip-fast-fn": "C12_zip_cache_names_refuted",
     "purity": "C12_purity_cache_refuted",
     "sig": "C12_sig_cache_sufficient",
     "pre-eval": "C12_pre_eval_cache_sufficient",
@@ -19,7 +19,7 @@ def run(r):
         "the Hash feed of Node (discriminants, length prefixes, fields) is an injective encoding of the erased tree [erase]; "
         "the tie checks equal/unequal of the real keys against the model on generated pairs, not the feed itself",
         "the key hooks uiua::verif::c12::{sig_key,node_key,inverse_key} repeat the three hashing lines of check.rs:54-56, tree.rs:920-922, un.rs:38-42 "
-        "(the statics are function-local and cannot be reached); the history search observes the real caches",
+        "(now: inverse_key = hash_deep(Some(asm)) per node, zip_key = hash_deep(None); the statics are function-local and cannot be reached); the history search observes the real caches",
         "[deps] over-approximates what each cached computation reads (read from the Rust; checked on pairs: equal deps => equal real un-inverse / signature)",
         "the regex, big-constant and geometric-algebra tables are keyed by their whole input (identity key): not modelled",
     ]
@@ -43,7 +43,7 @@ def run(r):
     shard = 200
     jobs = []
     for si, ch in enumerate(chunks(cases, shard)):
-        body = ";\n".join("TC %s %s %s %s %s" % (c["x"], c["y"], str(c["sig_eq"]).lower(), str(c["node_eq"]).lower(), str(c["inv_eq"]).lower()) for c in ch)
+        body = ";\n".join("TC %s %s %s %s %s %s" % (c["x"], c["y"], str(c["sig_eq"]).lower(), str(c["node_eq"]).lower(), str(c["inv_eq"]).lower(), str(c["zip_eq"]).lower()) for c in ch)
         text = ("From Coq Require Import List NArith. Import ListNotations.\nFrom UV Require Import Model.Memo.\nOpen Scope N_scope.\n"
                 "Definition cases : list tcase := [\n%s\n].\n"
                 "Eval vm_compute in (failing_from tcase_ok 0 cases ++ [%d] ++ flat_map deps_eq cases).\n" % (body, SENTINEL))
@@ -74,7 +74,7 @@ def run(r):
                 # (a hit is only used when the cached inverse has no top-level MatchPattern: [usable], un.rs:45-51)
                 if (c["un_collide"] == 1) != (inv_key_same == 1 and c["x_usable"]):
                     beh_mism.append(c)
-            if c["un_eq"] != 2:
+            if c["un_eq"] in (0, 1):
                 stats["un_compared"] += 1
                 if inv_same == 1 and c["un_eq"] == 0:
                     dep_mism.append(("un-inverse", c))
@@ -86,10 +86,11 @@ def run(r):
                     dep_mism.append(("sig", c))
     kinds = {}
     for c in cases:
-        k = kinds.setdefault(c["kind"], {"pairs": 0, "content_key_equal": 0, "inverse_key_equal": 0})
+        k = kinds.setdefault(c["kind"], {"pairs": 0, "content_key_equal": 0, "inverse_key_equal": 0, "zip_key_equal": 0})
         k["pairs"] += 1
         k["content_key_equal"] += 1 if c["node_eq"] else 0
         k["inverse_key_equal"] += 1 if c["inv_eq"] else 0
+        k["zip_key_equal"] += 1 if c["zip_eq"] else 0
     r.coverage["tie"] = {"kind": "C", "cases": len(cases), "mismatches": len(mism), "dependency_mismatches": len(dep_mism),
                          "by_ingredient": kinds, "dependency_stats": stats,
                          "distinct_pairs": len(set((c["x"], c["y"]) for c in cases))}
@@ -100,7 +101,7 @@ def run(r):
         c = mism[0]
         r.broken_obligation("tie:Memo.v~cache-keys", "model and implementation disagree on whether two trees have equal cache keys (%d of %d; ingredient %s)"
                             % (len(mism), len(cases), c["kind"]),
-                            json.dumps({"pair": c["show"], "ingredient": c["kind"], "impl": {"sig_key_eq": c["sig_eq"], "node_key_eq": c["node_eq"], "inverse_key_eq": c["inv_eq"]},
+                            json.dumps({"pair": c["show"], "ingredient": c["kind"], "impl": {"sig_key_eq": c["sig_eq"], "node_key_eq": c["node_eq"], "inverse_key_eq": c["inv_eq"], "zip_key_eq": c["zip_eq"]},
                                         "x": c["x"], "y": c["y"]}, ensure_ascii=False))
     r.coverage["tie"]["cache_behaviour_mismatches"] = len(beh_mism)
     if beh_mism:
@@ -144,8 +145,8 @@ def run(r):
                     theorem=THEOREM_OF.get(cache, "C12_memo_transparent"))
         r.sample({"history": v["history"], "in_history": v["hist"][:200], "fresh_thread": v["fresh"][:200], "key": key})
     # the refutation theorems speak about the current code: their real witnesses must still fail
-    expected = {"cache:un-inverse/position": "C12_inverse_cache_refuted", "cache:zip-fast-fn/position": "C12_zip_cache_refuted_span",
-                "cache:zip-fast-fn/value": "C12_zip_cache_refuted_index", "cache:purity/error": "C12_purity_cache_refuted"}
+    expected = {"cache:purity/error": "C12_purity_cache_refuted", "cache:un-inverse/name": "C12_inverse_cache_names_refuted",
+                "cache:zip-fast-fn/name": "C12_zip_cache_names_refuted"}
     stale = [k for k in expected if k not in s["violation_counts"]]
     r.coverage["refutation_witnesses_confirmed"] = [k for k in expected if k in s["violation_counts"]]
     if stale:
